@@ -45,7 +45,7 @@ type C03Scenario struct {
 	Obs      bool      `json:"obs,omitempty"`
 }
 
-var c03Kinds = []string{"pub", "pub", "pub", "sub", "sub", "unsub", "clear", "clearall", "has", "count", "wait"}
+var c03Kinds = []string{"pub", "pub", "pub", "pubcancel", "sub", "sub", "unsub", "clear", "clearall", "has", "count", "wait"}
 var c03PersistKinds = []string{"replay", "replay-upcast", "subreplay", "storeread", "reg-upcast", "reg-upcast", "clear-upcasts", "clear-upcasts-type", "mat-apply", "mat-apply", "mat-get", "mat-all", "mat-last", "mat-replay", "mat-register", "shutdown"}
 var c03ReentrantKinds = []string{"pub", "sub", "unsub", "clear", "count", "has"}
 
@@ -146,6 +146,7 @@ func (sc *C03Scenario) Execute(t *testing.T) *core.Outcome {
 			opts = append(opts, eventbus.WithObservability(nopObs{}))
 		}
 		var w *World
+		var cancels []context.CancelFunc
 		leafRT := allTypes[sc.Types[2]].RT
 		var reenter func(op C03Op)
 		if sc.HookOp != nil {
@@ -187,6 +188,11 @@ func (sc *C03Scenario) Execute(t *testing.T) *core.Outcome {
 		}
 		w.OnInvoke = func(ti, fn, uid int, c context.Context, id int) {
 			simrt.Yield(siteHandler)
+			if id >= 50000 && id-50000 < len(cancels) {
+				if cf := cancels[id-50000]; cf != nil {
+					cf()
+				}
+			}
 			if ti != sc.Types[2] {
 				for _, op := range sc.Script {
 					reenter(op)
@@ -225,10 +231,17 @@ func (sc *C03Scenario) Execute(t *testing.T) *core.Outcome {
 			stored = append(stored, &eventbus.StoredEvent{Offset: eventbus.Offset(fmt.Sprintf("%020d", i+1)), Type: "state.ChangeMessage", Data: data, Timestamp: time.Unix(int64(i), 0)})
 		}
 		upName := func(n int) string { return fmt.Sprintf("V%d", n%4) }
-		exec := func(op C03Op) {
+		exec := func(op C03Op, slot int) {
 			switch op.Kind {
 			case "pub":
 				typ(op.T).Pub(w, ctx, op.N+1)
+			case "pubcancel":
+				// a publish whose context is cancelled by the first handler that runs for it (sync or async);
+				// each such op owns one slot of `cancels`, written here before the publish and read by handlers after it
+				c, cancel := context.WithCancel(ctx)
+				cancels[slot] = cancel
+				typ(op.T).Pub(w, c, 50000+slot)
+				cancel()
 			case "sub":
 				w.SubscribeUID(sc.Types[op.T%3], fnOf(op), 0, op.Opts)
 			case "unsub":
@@ -280,21 +293,29 @@ func (sc *C03Scenario) Execute(t *testing.T) *core.Outcome {
 			}
 		}
 		for _, op := range sc.Init {
-			exec(op)
+			exec(op, 0)
 		}
 		var tasks []*simrt.Task
+		slotBase := make([]int, len(sc.Tasks))
+		nSlots := 1
+		for i, l := range sc.Tasks {
+			slotBase[i] = nSlots
+			nSlots += len(l)
+		}
+		cancels = make([]context.CancelFunc, nSlots)
 		for i, l := range sc.Tasks {
 			l := l
+			base := slotBase[i]
 			tasks = append(tasks, simrt.GoNamed(fmt.Sprintf("client%d", i), func() {
-				for _, op := range l {
+				for j, op := range l {
 					if !sc.Persist {
 						switch op.Kind {
-						case "pub", "sub", "unsub", "clear", "clearall", "has", "count", "wait":
+						case "pub", "pubcancel", "sub", "unsub", "clear", "clearall", "has", "count", "wait":
 						default:
 							continue
 						}
 					}
-					exec(op)
+					exec(op, base+j)
 				}
 			}))
 		}
